@@ -576,6 +576,31 @@ func c05(c *Ctx) {
 			r.Unresolved("handleDatagram")
 			return
 		}
+		// the receive time is taken after the datagrams were read: the clock call whose value becomes
+		// Datagram.Timestamp follows the (blocking) read of the batch in the same iteration
+		if rc := w.Func("pkg/statsd", "(*DatagramReceiver).Receive"); rc == nil {
+			r.Unresolved("(*DatagramReceiver).Receive")
+		} else {
+			c.SawFunc(FuncName(rc))
+			var read ssa.Instruction
+			for _, cl := range callsIn(rc) {
+				if cl.Common().IsInvoke() && cl.Common().Method.Name() == "ReadBatch" {
+					read = cl
+				}
+			}
+			nTs := 0
+			for _, lit := range complitsOf(rc, "Datagram") {
+				ts, has := lit["Timestamp"]
+				if !has {
+					continue
+				}
+				nTs++
+				clk, isCall := ptrOrigin(ts).(*ssa.Call)
+				okAfter := isCall && read != nil && instrDominates(read, clk)
+				r.Check("Receive:timestamp-after-read", okAfter, rc.Pos(), "Datagram.Timestamp is "+exprString(ts, 0)+", a clock reading taken after ReadBatch returned")
+			}
+			r.Check("Receive:timestamp-site", nTs >= 1 && read != nil, rc.Pos(), fmt.Sprintf("%d Datagram literals with a Timestamp", nTs))
+		}
 		var app *ssa.Call
 		eachInstr(hd, func(in ssa.Instruction) {
 			if cl, ok := in.(*ssa.Call); ok && isCall(cl, "builtin append") {
